@@ -85,3 +85,25 @@ def lemma(x, k):
     assert len(y._blooms[k]._bloom) == c and len(x._blooms[k]._bloom) == c
 ''', properties=["C05", "C01", "C09"], params={"x": "obj:ExpandingBloomFilter", "k": "int"},
       requires=_XR + ["0 <= k < len(x._blooms)"])
+
+
+lemma("P.C05.counting_bloom_bytes_roundtrip", '''
+def lemma(x, c):
+    b = bytes(x)
+    n = len(x._bloom)
+    assert len(b) == 4 * n + 20
+    assert le_bytes(b, len(b) - 20, 8) == x._est_elements
+    assert le_bytes(b, len(b) - 12, 8) == x._els_added
+    assert f32_at(b, len(b) - 4) == x._fpr
+    y = CountingBloomFilter.frombytes(b, x._hash_func)
+    assert y._est_elements == x._est_elements and y._els_added == x._els_added and y._fpr == x._fpr
+    assert y._num_bits == x._num_bits and y._number_hashes == x._number_hashes and y._bloom_length == x._bloom_length
+    assert y._hash_func == x._hash_func and len(y._bloom) == n
+    # an arbitrary cell c (parameter of the lemma, hence universally quantified)
+    assert le_bytes(b, 4 * c, 4) == x._bloom[c]
+    assert y._bloom[c] == le_bytes(b, 4 * c, 4)
+    assert y._bloom[c] == x._bloom[c]
+''', properties=["C05", "C08"], params={"x": "obj:CountingBloomFilter", "c": "int"},
+      requires=["inv_cbloom(x)", "geo_bloom(x)", "x._num_bits < 2**53", "0 <= c < len(x._bloom)",
+                "0 <= x._est_elements < 2**64 and 0 <= x._els_added < 2**64",
+                "all(0 <= x._bloom[q] < 2**32 for q in range(0, len(x._bloom)))"])
